@@ -287,9 +287,14 @@ var c09big = Register("C09", "C09.bigfloat", func(a c09BigArgs) *Violation {
 	}
 	var recv *big.Float
 	wantPrec := uint(128)
+	recvMode := big.ToNearestEven
 	if a.Prec > 0 && a.Prec != 1000 {
 		recv = new(big.Float).SetPrec(a.Prec).SetInt64(12345) // pre-loaded receiver
 		wantPrec = a.Prec
+		// the destination's own rounding mode (a pure function of the case): storing into a big.Float rounds the
+		// way that big.Float says, for either sign
+		recvMode = []big.RoundingMode{big.ToNearestEven, big.ToNearestAway, big.ToZero, big.AwayFromZero, big.ToNegativeInf, big.ToPositiveInf}[hashWords(a.V.Hi, a.V.Lo, uint64(a.Prec))%6]
+		recv.SetMode(recvMode)
 	} else if a.Prec == 1000 {
 		recv = new(big.Float) // a zero-value receiver has precision 0: the documented default of 128 bits applies
 	}
@@ -327,9 +332,12 @@ var c09big = Register("C09", "C09.bigfloat", func(a c09BigArgs) *Violation {
 		return violf("Float(%s) at precision %d = %s: relative error exceeds 2^(1-prec)", n, wantPrec, f.Text('g', 50))
 	}
 	if wantPrec >= 114 {
-		want := new(big.Float).SetPrec(wantPrec).SetMode(big.ToNearestEven).SetRat(v)
+		want := new(big.Float).SetPrec(wantPrec).SetMode(recvMode).SetRat(v)
 		if want.Cmp(f) != 0 {
-			return violf("Float(%s) at precision %d = %s, correctly rounded value is %s", n, wantPrec, f.Text('g', 60), want.Text('g', 60))
+			return violf("Float(%s) at precision %d into a destination with mode %v = %s, correctly rounded value is %s", n, wantPrec, recvMode, f.Text('g', 60), want.Text('g', 60))
+		}
+		if f.Mode() != recvMode {
+			return violf("Float(%s) changed the destination's rounding mode from %v to %v", n, recvMode, f.Mode())
 		}
 		st.Class("prec>=114")
 	} else {
